@@ -6,6 +6,7 @@ import Pyunicorn.Lemmas.NsiRw
 import Pyunicorn.Lemmas.NsiEig
 import Pyunicorn.Lemmas.NsiArenasReg
 import Pyunicorn.Lemmas.NsiComp
+import Pyunicorn.Lemmas.NsiCompInv
 import Pyunicorn.Model.NsiMeasures
 /-!
 # C02 — Node-splitting invariance of all n.s.i. measures
@@ -640,6 +641,53 @@ def compG : Gr :=
 example : compList compG = [[0, 1], [2, 3], [4]] ∧
     compList (split compG 2 (1/4)) = [[0, 1], [2, 3, 5], [4]] ∧
     compList (split compG 4 (1/4)) = [[0, 1], [2, 3], [4, 5]] := by
+  decide +kernel
+
+
+/-- **Node-splitting invariance of `nsi_newman_betweenness` as the wrapper computes it, on every
+loop-free network with positive node weights — connected or not** (both values of
+`add_local_ends`).  `newmanAt G Tof ends a` is what the component loop stores at node `a`: the
+isolated-node value (`0`, or `w_a²` with `add_local_ends`), or the measure of the sub-network of
+`a`'s component at `a`'s position in it, `Tof H` standing for `sp_M_inv` of the sub-network `H`
+(a function of the network inside its node range — `hTcongr` — that does what the inverse is used
+for on the two components concerned).  Covers the three cases of the loop: a component without the
+split node (handed over unchanged), the component of the split node (its sub-network is the split
+of the old sub-network: `nsi_newman_betweenness_split`), and an **isolated node that becomes a
+pair of twins** (the code path changes from the shortcut to the full computation on a 2-node
+network: no walk is counted and the local-ends term is `(2W − k*) k* = w_v²`). -/
+theorem nsi_newman_betweenness_wrapper_split (G : Gr) (v : Nat) (p : Rat) (hv : v < G.n)
+    (hp0 : 0 < p) (hp1 : p < 1) (hw : ∀ k, k < G.n → 0 < G.w k) (hloop : ∀ i, G.adj i i = false)
+    (Tof : Gr → Nat → Nat → Rat)
+    (hTcongr : ∀ H H', RangeEq H H' → ∀ i j, i < H.n → j < H.n → Tof H i j = Tof H' i j)
+    (ends : Bool) (a : Nat) (ha : a < G.n + 1)
+    (hL : SolvesL (subGr G (compNodes G (collapse G.n v a))).n
+      (nsiQ (subGr G (compNodes G (collapse G.n v a))))
+      (newmanM (subGr G (compNodes G (collapse G.n v a))))
+      (Tof (subGr G (compNodes G (collapse G.n v a)))))
+    (hR : SolvesR (subGr (split G v p) (compNodes (split G v p) a)).n
+      (newmanM (subGr (split G v p) (compNodes (split G v p) a)))
+      (Tof (subGr (split G v p) (compNodes (split G v p) a)))) :
+    newmanAt (split G v p) Tof ends a = newmanAt G Tof ends (collapse G.n v a) :=
+  newmanAt_split G v p hv hp0 hp1 hw hloop Tof hTcongr ends a ha hL hR
+
+/-- the Newman-type betweenness reads only the node range, the links and weights inside it and
+the entries of `sp_M_inv` inside it -/
+theorem nsi_newman_reads_range_only (G H : Gr) (h : RangeEq G H) (T T' : Nat → Nat → Rat)
+    (hT : ∀ i j, i < G.n → j < G.n → T i j = T' i j) (ends : Bool) (i : Nat) (hi : i < G.n) :
+    nsiNewman G T ends i = nsiNewman H T' ends i :=
+  nsiNewman_congr h T T' hT ends i hi
+
+/-- a complete network (every pair linked, e.g. the two twins of an isolated node): no walk is
+counted; with `add_local_ends` every node has `W²` -/
+theorem nsi_newman_complete_network (K : Gr) (hall : ∀ i j, i < K.n → j < K.n → aplus K i j = 1)
+    (T : Nat → Nat → Rat) (ends : Bool) (i : Nat) (hi : i < K.n) :
+    nsiNewman K T ends i = if ends then totalW K * totalW K else 0 :=
+  nsiNewman_complete K hall T ends i hi
+
+example : newmanWrapped compG true = some [9, 9, 16, 16, 4] ∧
+    newmanWrapped (split compG 2 (1/4)) true = some [9, 9, 16, 16, 4, 16] ∧
+    newmanWrapped (split compG 4 (1/4)) true = some [9, 9, 16, 16, 4, 4] ∧
+    newmanWrapped (split compG 4 (1/4)) false = some [0, 0, 0, 0, 0, 0] := by
   decide +kernel
 
 /-! ### round 5: `nsi_eigenvector_centrality`
